@@ -29,7 +29,17 @@ func VerifC04_IndexStores() {
 	n := vChoose("chunks", 3)
 	idx := verifSymIndex(n)
 	verifDigestFor(idx.Index.FeatureFlags)
-	switch vChoose("store", 3) {
+	switch vChoose("store", 4) {
+	case 3: // an HTTP index store that serves a truncated index: reading it fails, like reading the file would
+		var wire bytes.Buffer
+		idx.WriteTo(&wire)
+		cut := vChoose("bytes-served", wire.Len())
+		rt := &verifRT{}
+		rt.f = func(r *http.Request) (*http.Response, error) { return verifResp(200, wire.Bytes()[:cut]), nil }
+		c := &RemoteHTTPIndex{verifHTTPStore(rt, StoreOptions{ErrorRetry: 1}).RemoteHTTPBase}
+		_, err := c.GetIndex("a.caibx")
+		vCover("truncated-get-returned")
+		vAssert(err != nil, "a truncated index served over HTTP was accepted")
 	case 0:
 		dir := vTempDir()
 		ls, err := NewLocalIndexStore(dir)
